@@ -31,6 +31,7 @@ def run(prog, chk):
     degenerate_boxes(prog, chk)
     use_translation(prog, chk)
     from props import geomalg
+    geomalg.check_sites(prog, chk, "C08")
     geomalg.check(prog, chk, "C08", floor=19)
 
 
